@@ -246,7 +246,7 @@ PROPS = {
         note=ENVNOTE + '; the assumed effects of the callees in unit `revoke` are uninterpreted functions - their meaning is fixed by the Kani contracts, the correspondence is by review',
         explanation='token walk and the five type-wide revoke_* proved unbounded (Verus); per-entity removal and a compiled-code restatement bounded (Kani); history lemma L3'),
     'C07': dict(category='other', design_ref='DESIGN.md 5/C07 + 9.5',
-        text='Handle-balance contracts on the real code: ReactorMode::prepare gives a persistent reactor a plain handle (never ref-counted, hence never collected) and every other mode a signal for exactly the reactor\'s entity (Verus, verbatim); each of the 11 trigger types registers exactly ONE clone of the handle per trigger into the table its reactor_type() names, none for a despawn trigger on a dead entity, and register_entity_reactor stores none when the entity is gone (Verus, verbatim, generic); register_* store exactly the handle they are given (Verus, unbounded); revoke_* / EntityReactors::remove drop exactly the matching entries and no neighbour (Kani, L<=3); DespawnAccessTracker holds the in-flight handle from start to end and end drops it (Verus); the signal itself is an exact reference count: the reactor\'s id is sent to the despawner exactly once, at the drop of the last clone (Kani on real std::sync::Arc + the assumed channel, 1..3 clones; lemma L4). Level other: garbage_collect_entities, schedule_despawn_reactions and the runner\'s collection points are NOT discharged (CBMC cost / outside Verus\' subset), so "despawned by the first collection after the last handle disappears" is carried only up to the despawn request.',
+        text='Handle-balance contracts on the real code: ReactorMode::prepare gives a persistent reactor a plain handle (never ref-counted, hence never collected) and every other mode a signal for exactly the reactor\'s entity (Verus, verbatim); each of the 11 trigger types registers exactly ONE clone of the handle per trigger into the table its reactor_type() names, none for a despawn trigger on a dead entity, and register_entity_reactor stores none when the entity is gone (Verus, verbatim, generic); register_* store exactly the handle they are given (Verus, unbounded); revoke_* drop exactly one entry of the revoked reactor and no neighbour (Verus, any length; Kani restatement L<=4), EntityReactors::remove exactly the (type, id) matches (Kani, L<=4); register_reactors turns the mode into ONE handle and registers the whole bundle with it (Verus); DespawnAccessTracker holds the in-flight handle from start to end and end drops it (Verus); the signal itself is an exact reference count: the reactor\'s id is sent to the despawner exactly once, at the drop of the last clone (Kani on real std::sync::Arc + the assumed channel, 1..3 clones; lemma L4). Level other: garbage_collect_entities, schedule_despawn_reactions and the runner\'s collection points are NOT discharged (CBMC cost / outside Verus\' subset), so "despawned by the first collection after the last handle disappears" is carried only up to the despawn request.',
         note=ENVNOTE + '; Arc/channel: sequential semantics; garbage collection itself assumed',
         explanation='one clone per effective registration, one drop per revocation, in-flight handle dropped at end, exact ref-count of the signal; collection not covered'),
     'C10': dict(category='other', design_ref='DESIGN.md 5/C10 + 9.5',
